@@ -1281,6 +1281,23 @@ func (e *Env) sourceVarMode(name string, at *ssa.BasicBlock, valuesOnly bool) (s
 	if best == nil {
 		return specVal{}, false
 	}
+	if !best.IsAddr && !valuesOnly {
+		// a variable that lives in memory (its address is taken somewhere): a value reference at
+		// its definition is stale once it is re-assigned — read the cell in the current state
+		for _, b := range e.fr.fn.Blocks {
+			for _, in := range b.Instrs {
+				if dr, ok := in.(*ssa.DebugRef); ok && dr.IsAddr && dr.Object() == best.Object() {
+					if directStores(e.fr.fn, dr.X) <= 1 {
+						continue // assigned once: the value reference is exact (and simpler for the solver)
+					}
+					if av, have := e.fr.vals[dr.X]; have {
+						t := deref(dr.X.Type())
+						return specVal{t: e.v.loadPtr(e.st, av, t), typ: t, st: e.st}, true
+					}
+				}
+			}
+		}
+	}
 	val, have := e.fr.vals[best.X]
 	if !have {
 		if c, isConst := best.X.(*ssa.Const); isConst {
@@ -1441,4 +1458,17 @@ func (e *Env) memoMacro(name string, r specVal) specVal {
 	v.macCache[r.t] = n
 	r.t = n
 	return r
+}
+
+// directStores: how many store instructions write through addr itself.
+func directStores(fn *ssa.Function, addr ssa.Value) int {
+	n := 0
+	for _, b := range fn.Blocks {
+		for _, in := range b.Instrs {
+			if st, ok := in.(*ssa.Store); ok && st.Addr == addr {
+				n++
+			}
+		}
+	}
+	return n
 }
